@@ -8,9 +8,10 @@ use std::sync::Arc;
 
 verus! {
 
-broadcast use {vstd::std_specs::hash::group_hash_axioms, enc_ax::display_u64_injective, enc_ax::b64_injective, enc_ax::axiom_string_key_model};
+broadcast use {vstd::std_specs::hash::group_hash_axioms, enc_ax::display_u64_injective, enc_ax::b64_injective, enc_ax::axiom_string_key_model, string_conv_ax::to_string_ensures_for_string};
 
 //@include prelude/mapping_stubs.rs
+//@include prelude/string_conv.rs
 
 // ======================================================================================
 // src/topics/topic_message.rs
